@@ -148,6 +148,20 @@ pub fn c09_desc_new_two_const_one_variable() {
     std::mem::forget(r);
 }
 
+/// Three variable labels (names symbolic from the pool): a repetition anywhere, adjacent or not,
+/// is rejected.
+#[cfg_attr(kani, kani::proof, kani::unwind(6))]
+pub fn c09_desc_new_three_variable_labels() {
+    let (v1, v2, v3) = (any_u8_below(4), any_u8_below(4), any_u8_below(4));
+    let vl = vec![pool_string(v1), pool_string(v2), pool_string(v3)];
+    let dup = v1 == v2 || v1 == v3 || v2 == v3;
+    let r = Desc::new(String::from("m"), String::from("h"), vl, HashMap::new());
+    vcover!(v1 == v3 && v1 != v2, "c09.dup3: non-adjacent repetition");
+    vcover!(!dup, "c09.dup3: three distinct names");
+    assert!(r.is_ok() == !dup, "C09 a label name occurring twice among const and variable labels is rejected");
+    std::mem::forget(r);
+}
+
 fn le_case(const_name: &str, var_name: &str, expect_ok: bool) {
     let mut opts = crate::histogram::HistogramOpts::new("m", "h").buckets(vec![1.0]);
     opts.common_opts.const_labels.insert(String::from(const_name), String::from("1"));
@@ -173,6 +187,7 @@ pub fn dispatch(name: &str) -> Option<fn()> {
         "c09_desc_new_checks_names" => c09_desc_new_checks_names,
         "c09_desc_new_rejects_duplicate_label_names" => c09_desc_new_rejects_duplicate_label_names,
         "c09_desc_new_two_const_one_variable" => c09_desc_new_two_const_one_variable,
+        "c09_desc_new_three_variable_labels" => c09_desc_new_three_variable_labels,
         "c09_histogram_rejects_le" => c09_histogram_rejects_le,
         _ => return None,
     })
